@@ -125,25 +125,28 @@ Definition map_insert (k kid v : N) : M' (option N) :=
   end.
 
 (* get / get_key_value / contains_key / get_mut / index / get_key_value_mut *)
-Definition map_get (variant k w : N) : M' out :=
+Inductive gvar := GGet | GKeyValue | GContains | GGetMut | GIndex | GKeyValueMut.
+Definition gvar_of (n : N) : gvar :=
+  match n with 0 => GGet | 1 => GKeyValue | 2 => GContains | 3 => GGetMut | 5 => GKeyValueMut | _ => GIndex end.
+Definition map_get (variant : gvar) (k w : N) : M' out :=
   tick_hash ;;;
   x <- rt_find k ;;
   match variant with
-  | 0 => ret (OutOV (option_map (fun x => ev (snd x)) x))
-  | 1 => ret (OutOKV (option_map (fun x => (ekid (snd x), ev (snd x))) x))
-  | 2 => ret (OutB (is_some_b x))
-  | 3 => match x with
-         | Some (im, e) => set_value im k w ;;; ret (OutOV (Some (ev e)))
-         | None => ret (OutOV None)
-         end
-  | 5 => match x with
-         | Some (im, e) => set_value im k w ;;; ret (OutOKV (Some (ekid e, ev e)))
-         | None => ret (OutOKV None)
-         end
-  | _ => match x with
-         | Some (_, e) => ret (OutOV (Some (ev e)))
-         | None => unwind PIndexMissing
-         end
+  | GGet => ret (OutOV (option_map (fun x => ev (snd x)) x))
+  | GKeyValue => ret (OutOKV (option_map (fun x => (ekid (snd x), ev (snd x))) x))
+  | GContains => ret (OutB (is_some_b x))
+  | GGetMut => match x with
+               | Some (im, e) => set_value im k w ;;; ret (OutOV (Some (ev e)))
+               | None => ret (OutOV None)
+               end
+  | GKeyValueMut => match x with
+                    | Some (im, e) => set_value im k w ;;; ret (OutOKV (Some (ekid e, ev e)))
+                    | None => ret (OutOKV None)
+                    end
+  | GIndex => match x with
+              | Some (_, e) => ret (OutOV (Some (ev e)))
+              | None => unwind PIndexMissing
+              end
   end.
 
 Definition map_remove_entry (k : N) : M' (option elem) :=
@@ -439,24 +442,27 @@ Definition world0 : world := W ∅ log0 None.
 Record traced := T { t_op : op; t_on : N; t_tomb : N; t_perm : list N; t_qperm : list N }.
 
 Definition load (w : world) (m : mslot) (on : N * N) (perm : list N * list N) : st :=
-  St (m_rt m) (m_hs m) (m_filed m) (w_log w) (w_fuse w) (fst on) (snd on) (fst perm) (snd perm).
-Definition store (w : world) (i : N) (s : st) : world :=
-  W (<[i := MS (s_rt s) (s_hs s) (s_filed s)]> (w_maps w)) (s_log s) (s_fuse s).
+  St (m_rt m) (w_log w) (w_fuse w) (fst on) (snd on) (fst perm) (snd perm).
+(* hs: the map's hash_builder; filed: the hasher its elements are filed under (they differ only
+   after an interrupted clone_from) *)
+Definition store (w : world) (i : N) (hs filed : N) (s : st) : world :=
+  W (<[i := MS (s_rt s) hs filed]> (w_maps w)) (s_log s) (s_fuse s).
 
-(* run a single-map action on slot i *)
-Definition with_slot {A} (w : world) (i : N) (on : N * N) (perm : list N * list N) (m : M' A) : res world A :=
+(* run a single-map action on slot i; lawful histories only use a map whose elements are filed
+   under its own hasher (need_hasher) *)
+Definition with_slot_gen {A} (need_hasher : bool) (w : world) (i : N) (on : N * N) (perm : list N * list N) (m : M' A) : res world A :=
   match w_maps w !! i with
   | None => Fault FBadOp
   | Some ms =>
+      if need_hasher && negb (m_filed ms =? m_hs ms) then Fault FBadOp else
       match m (load w ms on perm) with
-      | Ok a s => Ok a (store w i s)
-      | Unwind p s => Unwind p (store w i s)
+      | Ok a s => Ok a (store w i (m_hs ms) (m_filed ms) s)
+      | Unwind p s => Unwind p (store w i (m_hs ms) (m_filed ms) s)
       | Fault f => Fault f
       end
   end.
-
-Definition hasher_ok : M' unit :=
-  s <- get ;; if s_filed s =? s_hs s then ret tt else fault_ FBadOp.
+Definition with_slot {A} := @with_slot_gen A false.
+Definition with_slot_h {A} := @with_slot_gen A true.
 
 Definition slot_of (w : world) (i : N) : option mslot := w_maps w !! i.
 Definition set_world_fuse (f : option N) (w : world) : world := W (w_maps w) (w_log w) f.
@@ -480,21 +486,20 @@ Definition step (w : world) (t : traced) : res world out :=
       with_slot w0 s on perm
         (t <- hb_with_capacity c false cap ;;
          match t with Some t => setm t ;;; ret OutU | None => fault_ FUnreachable end)
-  | OInsert s k kid v => rmap OutOV (with_slot w s on perm (hasher_ok ;;; map_insert c k kid v))
-  | OGet s variant k wv => with_slot w s on perm (hasher_ok ;;; map_get variant k wv)
+  | OInsert s k kid v => rmap OutOV (with_slot_h w s on perm (map_insert c k kid v))
+  | OGet s variant k wv => with_slot_h w s on perm (map_get (gvar_of variant) k wv)
   | ORemove s entry k =>
-      with_slot w s on perm
-        (hasher_ok ;;;
-         r <- map_remove_entry c k ;;
+      with_slot_h w s on perm
+        (r <- map_remove_entry c k ;;
          match r with
          | Some e => if entry then ret (OutOKV (Some (ekid e, ev e)))
                      else drop_key (ekid e) ;;; ret (OutOV (Some (ev e)))
          | None => ret (if entry then OutOKV None else OutOV None)
          end)
   | OClear s => rmap (fun _ => OutU) (with_slot w s on perm rt_clear)
-  | OReserve s n => rmap (fun _ => OutU) (with_slot w s on perm (hasher_ok ;;; map_reserve c false n))
-  | OTryReserve s n => rmap OutB (with_slot w s on perm (hasher_ok ;;; map_reserve c true n))
-  | OShrinkTo s n => rmap (fun _ => OutU) (with_slot w s on perm (hasher_ok ;;; rt_shrink_to c n))
+  | OReserve s n => rmap (fun _ => OutU) (with_slot_h w s on perm (map_reserve c false n))
+  | OTryReserve s n => rmap OutB (with_slot_h w s on perm (map_reserve c true n))
+  | OShrinkTo s n => rmap (fun _ => OutU) (with_slot_h w s on perm (rt_shrink_to c n))
   | OIter s variant delta => rmap OutL (with_slot w s on perm (map_iter delta))
   | ODrain s j forget => rmap OutL (with_slot w s on perm (map_drain c j forget))
   | OIntoIter s j =>
@@ -506,7 +511,7 @@ Definition step (w : world) (t : traced) : res world out :=
   | ORetain s keep delta => rmap OutL (with_slot w s on perm (map_retain c keep delta))
   | ODrainFilter s take delta j forget =>
       rmap OutL (with_slot w s on perm (map_drain_filter c take delta j forget))
-  | OExtend s items hint => rmap (fun _ => OutU) (with_slot w s on perm (hasher_ok ;;; map_extend c items hint))
+  | OExtend s items hint => rmap (fun _ => OutU) (with_slot_h w s on perm (map_extend c items hint))
   | OFromIter s hs items hint =>
       let w0 := W (<[s := MS rt_new hs hs]> (w_maps w)) (w_log w) (w_fuse w) in
       rmap (fun _ => OutU)
@@ -520,22 +525,25 @@ Definition step (w : world) (t : traced) : res world out :=
       match w_maps w !! s with
       | None => Fault FBadOp
       | Some ms =>
-          match (hasher_ok ;;; rt_clone c) (load w ms on perm) with
+          if negb (m_filed ms =? m_hs ms) then Fault FBadOp else
+          match rt_clone c (load w ms on perm) with
           | Ok r st' => Ok (OutN (m_hs ms)) (W (<[d := MS r (m_hs ms) (m_hs ms)]> (w_maps w)) (s_log st') (s_fuse st'))
           | Unwind p st' => Unwind p (W (w_maps w) (s_log st') (s_fuse st'))
           | Fault x => Fault x
           end
       end
   | OCloneFrom d s =>
-      match w_maps w !! s with
-      | None => Fault FBadOp
-      | Some src =>
+      match w_maps w !! s, w_maps w !! d with
+      | Some src, Some dst =>
           if negb (m_filed src =? m_hs src) then Fault FBadOp else
-          rmap (fun _ => OutN (m_hs src))
-            (with_slot w d on perm
-               (modify (set_filed (m_hs src)) ;;;
-                rt_clone_from c (m_rt src) ;;;
-                modify (set_hs (m_hs src))))
+          (* the elements are re-filed under the source's hasher as they are cloned; the
+             destination's own hash_builder is replaced only when everything succeeded *)
+          match rt_clone_from c (m_rt src) (load w dst on perm) with
+          | Ok _ st' => Ok (OutN (m_hs src)) (store w d (m_hs src) (m_hs src) st')
+          | Unwind p st' => Unwind p (store w d (m_hs dst) (m_hs src) st')
+          | Fault x => Fault x
+          end
+      | _, _ => Fault FBadOp
       end
   | OEq a b =>
       match w_maps w !! b with
@@ -548,9 +556,9 @@ Definition step (w : world) (t : traced) : res world out :=
       | Unwind p w' => Unwind p (del_slot s w')
       | Fault x => Fault x
       end
-  | OEntry s k kid ss => rmap OutS (with_slot w s on perm (hasher_ok ;;; map_entry c k kid ss))
-  | ORawEntry s variant k ss => rmap OutS (with_slot w s on perm (hasher_ok ;;; map_raw_entry c variant k ss))
-  | ORawGet s variant k => with_slot w s on perm (hasher_ok ;;; map_raw_get variant k)
+  | OEntry s k kid ss => rmap OutS (with_slot_h w s on perm (map_entry c k kid ss))
+  | ORawEntry s variant k ss => rmap OutS (with_slot_h w s on perm (map_raw_entry c variant k ss))
+  | ORawGet s variant k => with_slot_h w s on perm (map_raw_get variant k)
   end.
 
 (* the harness catches every panic: the history goes on *)
